@@ -186,6 +186,118 @@ WalkDeep(T, it, n, acc) ==
                               \o (IF ar.ok THEN Pad3(WalkAdvance(T, ar.it, Len(T) + 2, <<>>)) ELSE <<>>) \o << <<"end", 0, 0>> >>)
        ELSE WalkDeep(T, r.it, n - 1, acc)
 
+---------------------------------------------------------------------------
+(* MarshalJSONBuffer as a machine over the iterator: one MLoop per turn of  *)
+(* the code's writeloop, the same AdvanceInto / PeekNextTag as above, a     *)
+(* stack of "n" (bottom) / "r" / "a" / "o".  The result is the sequence of  *)
+(* TOKENS written ("s" a string, "#" a number, "nl" the newline between     *)
+(* roots) followed by "ok", or <<"ERR">> when the call returns an error,    *)
+(* or <<"RUNAWAY">> when the step bound is exhausted.                       *)
+(* (MarshalMachine.tla is the same algorithm over Tape.tla's well-formed    *)
+(* tapes with texts; this one is over raw words and iterator STATES: an     *)
+(* iterator that still owes a skip, a slice that ends early, a zero word.)  *)
+\* a string is readable when its length word is the zero word (empty string in an empty buffer)
+StrOK(T, it) == it.t = "\"" /\ it.off < it.lim /\ W(T, it.off) = <<"0", 0>>
+Top(stk) == stk[Len(stk)]
+Pop(stk) == SubSeq(stk, 1, Len(stk) - 1)
+MErr == <<"ERR">>
+MDone(stk, out) == IF Len(stk) > 1 THEN MErr ELSE Append(out, "ok")       \* "objects or arrays not closed"
+
+RECURSIVE MLoop(_, _, _, _, _), MSwitch(_, _, _, _, _), MAfter(_, _, _, _, _)
+MLoop(T, it, stk, out, n) ==
+  IF n = 0 THEN <<"RUNAWAY">>
+  ELSE LET needKey == Top(stk) = "o" /\ it.t # "}" IN
+       IF needKey /\ ~StrOK(T, it) THEN MErr                               \* "expected key within object"
+       ELSE IF needKey /\ PeekNextTag(T, it) = End THEN MErr               \* "unexpected end of tape within object"
+       ELSE IF needKey THEN MSwitch(T, AdvanceInto(T, it).it, stk, out \o <<"s", ":">>, n)
+       ELSE MSwitch(T, it, stk, out, n)
+
+MSwitch(T, it, stk, out, n) ==
+  LET t == it.t
+      \* containers and roots are ENTERED: a pending skip (iterator positioned by Advance) is dropped first
+      Enter(kind, out1) == MLoop(T, AdvanceInto(T, [it EXCEPT !.add = 0]).it, Append(stk, kind), out1, n - 1)
+  IN CASE t = "r" ->
+            IF Len(stk) > 1
+            THEN IF it.cur > it.off THEN MErr                               \* an opening root inside something
+                 ELSE IF Top(stk) = "r"
+                      THEN MAfter(T, it, Pop(stk), IF PeekNextTag(T, it) # End THEN Append(out, "nl") ELSE out, n)
+                      ELSE MErr
+            ELSE IF it.cur > it.off THEN Enter("r", out)
+                 ELSE MDone(stk, out)                                       \* closing root of a per-root iterator: its scope ends
+       [] t = "\"" -> IF StrOK(T, it) THEN MAfter(T, it, stk, Append(out, "s"), n) ELSE MErr
+       [] t \in {"l", "u", "d"} -> IF it.off >= it.lim THEN MErr ELSE MAfter(T, it, stk, Append(out, "#"), n)
+       [] t \in {"n", "t", "f"} -> MAfter(T, it, stk, Append(out, t), n)
+       [] t = "{" -> Enter("o", Append(out, "{"))
+       [] t = "[" -> Enter("a", Append(out, "["))
+       [] t = "}" -> IF Top(stk) # "o" THEN MErr ELSE MAfter(T, it, Pop(stk), Append(out, "}"), n)
+       [] t = "]" -> IF Top(stk) # "a" THEN MErr ELSE MAfter(T, it, Pop(stk), Append(out, "]"), n)
+       [] t = End -> IF PeekNextTag(T, it) = End THEN MErr                  \* "no content queued in iterator"
+                     ELSE MLoop(T, AdvanceInto(T, it).it, stk, out, n - 1)
+       [] OTHER -> MAfter(T, it, stk, out, n)                               \* a byte that is no tag writes nothing
+
+MAfter(T, it, stk, out, n) ==
+  IF PeekNextTag(T, it) = End THEN MDone(stk, out)
+  ELSE LET it1 == AdvanceInto(T, it).it
+           sep == IF Top(stk) = "a" /\ it1.t # "]" THEN <<",">>
+                  ELSE IF Top(stk) = "o" /\ it1.t # "}" THEN <<",">> ELSE <<>>
+       IN MLoop(T, it1, stk, out \o sep, n - 1)
+
+Marshal(T, it) == MLoop(T, it, <<"n">>, <<>>, Len(T) + 3)
+
+\* marshalling from every iterator state the walks pass through
+RECURSIVE MWalkAdvance(_, _, _, _), MWalkInto(_, _, _, _), MWalkIter(_, _, _, _), MWalkElems(_, _, _, _, _), MWalkDeep(_, _, _, _)
+MWalkAdvance(T, it, n, acc) ==
+  IF n = 0 THEN acc
+  ELSE LET r == Advance(T, it) IN
+       IF r.ret = "none" THEN acc ELSE MWalkAdvance(T, r.it, n - 1, Append(acc, Marshal(T, r.it)))
+MWalkInto(T, it, n, acc) ==
+  IF n = 0 THEN acc
+  ELSE LET r == AdvanceInto(T, it) IN
+       IF r.ret = End THEN acc ELSE MWalkInto(T, r.it, n - 1, Append(acc, Marshal(T, r.it)))
+MWalkIter(T, it, n, acc) ==
+  IF n = 0 THEN acc
+  ELSE LET r == AdvanceIter(T, it) IN
+       IF r.err \/ r.ret = "none" THEN acc ELSE MWalkIter(T, r.it, n - 1, Append(acc, Marshal(T, r.dst)))
+MWalkElems(T, lim, o, n, acc) ==
+  IF n = 0 THEN acc
+  ELSE LET r == NextElem(T, lim, o) IN
+       IF r.kind = "elem" /\ r.typ # "none" THEN MWalkElems(T, lim, r.off, n - 1, Append(acc, Marshal(T, r.it))) ELSE acc
+\* at every container start AdvanceInto reaches: the member iterators NextElementBytes hands out / Array.Iter() advanced onto each element
+MWalkDeep(T, it, n, acc) ==
+  IF n = 0 THEN acc
+  ELSE LET r == AdvanceInto(T, it) IN
+       IF r.ret = End THEN acc
+       ELSE IF r.ret = "{"
+            THEN LET ob == Object(T, r.it) IN
+                 MWalkDeep(T, r.it, n - 1, IF ob.ok THEN MWalkElems(T, ob.lim, ob.off, Len(T) + 2, acc) ELSE acc)
+       ELSE IF r.ret = "["
+            THEN LET ar == Array(T, r.it) IN
+                 MWalkDeep(T, r.it, n - 1, IF ar.ok THEN MWalkAdvance(T, ar.it, Len(T) + 2, acc) ELSE acc)
+       ELSE MWalkDeep(T, r.it, n - 1, acc)
+
+ObserveMarshal(T) ==
+  LET n  == Len(T) + 2
+      it == NewIter(T)
+      a1 == Advance(T, it)
+      rt == IF a1.ret = "root" THEN Root(T, a1.it) ELSE [ok |-> FALSE, dst |-> <<>>, ret |-> "none"]
+  IN [mnew  |-> Marshal(T, it),
+      madv  |-> MWalkAdvance(T, it, n, <<>>),
+      minto |-> MWalkInto(T, it, n, <<>>),
+      miter |-> MWalkIter(T, it, n, <<>>),
+      mroot |-> IF rt.ok THEN <<Marshal(T, rt.dst)>> ELSE <<>>,
+      mdeep |-> MWalkDeep(T, it, n, <<>>)]
+
+\* what comes out without an error is properly bracketed
+RECURSIVE BalancedFrom(_, _, _)
+BalancedFrom(toks, i, stk) ==
+  IF i > Len(toks) THEN stk = <<>>
+  ELSE LET k == toks[i] IN
+       IF k \in {"{", "["} THEN BalancedFrom(toks, i + 1, Append(stk, k))
+       ELSE IF k = "}" THEN stk # <<>> /\ stk[Len(stk)] = "{" /\ BalancedFrom(toks, i + 1, SubSeq(stk, 1, Len(stk) - 1))
+       ELSE IF k = "]" THEN stk # <<>> /\ stk[Len(stk)] = "[" /\ BalancedFrom(toks, i + 1, SubSeq(stk, 1, Len(stk) - 1))
+       ELSE BalancedFrom(toks, i + 1, stk)
+MarshalResultOK(m) == m # <<"RUNAWAY">> /\ (m[Len(m)] = "ok" => BalancedFrom(m, 1, <<>>))
+
 Observe(T) ==
   LET n  == Len(T) + 2
       it == NewIter(T)
